@@ -29,5 +29,6 @@ EmitOps == Mode = "ops" => PrintT(<<"CASE", ToJson([k |-> "ops", segs |-> segs, 
              from |-> FromSegments(segs),
              new |-> IF segs = <<>> THEN [k |-> "na"] ELSE New(segs[Len(segs)], ModPath),
              newr |-> IF segs = <<>> THEN [k |-> "na"] ELSE NewWithReplace(segs[Len(segs)], ModPath, tab),
+             chainfree |-> ChainFree(tab),
              ident |-> Ident(segs), ns |-> Namespace(segs), disp |-> Display(segs)])>>)
 =============================================================================
